@@ -55,6 +55,24 @@ pub fn union_hash_h() {
     kani::cover!(true);
 }
 """)
+        if 0 < n <= 8:      # (iterating a slice of zero-sized elements does not terminate in reasonable time under CBMC)
+            u.kani_oracle.append("""/// a one-element slice of the union: the slice's length prefix, then the element as above
+pub fn hash_slice_rec(x: &TI) -> crate::src::Rec { let mut r = crate::src::Rec::new(); core::hash::Hash::hash(core::slice::from_ref(x), &mut r); r }
+pub fn hash_slice_expected(x: &TI) -> crate::src::Rec { use core::hash::Hasher; let mut r = crate::src::Rec::new(); r.write_usize(1); let b = bytes(x); core::hash::Hash::hash(&b[..], &mut r); r }
+""")
+            u.kani_harness.append("""
+#[kani::proof]
+#[kani::unwind(34)]
+pub fn union_hash_slice_h() {
+    let a = oracle::mk(&mut KaniSrc);
+    let (r, e) = (oracle::hash_slice_rec(&a), oracle::hash_slice_expected(&a));
+    assert!(!r.overflow && !e.overflow, "recorder capacity");
+    assert!(r == e, "contract: inside a slice the union still feeds its size_of::<Self>() bytes as one byte slice");
+    kani::cover!(true);
+}
+""")
+            u.kani_obls["union_hash_slice_h"] = ("%s/%s/Hash::hash_slice/contract" % (prop, P.pid), "hashing &[a] feeds the length prefix 1 and then exactly what hashing a feeds")
+            u.replay.append('{ let a = oracle::mk(s); chk(out, "hash data of &[a]", oracle::hash_slice_rec(&a), oracle::hash_slice_expected(&a)); }')
         u.kani_obls["union_hash_h"] = ("%s/%s/Hash::hash/contract" % (prop, P.pid), "recorded hasher calls == those of hashing the byte slice bytes(a)[..]")
         u.replay.append('{ let a = oracle::mk(s); chk(out, "hash data", oracle::hash_rec(&a), oracle::hash_expected(&a)); }')
     if "Clone" in P.focus:
